@@ -202,6 +202,24 @@ def _closure_tensors(fn, exclude_ids):
     return found
 
 
+class _Strided:
+    """Element access by flat (row-major) index for a non-contiguous tensor (e.g. parameters replaced by grid_())."""
+
+    def __init__(self, t):
+        self.t = t
+        self.shape = tuple(t.shape)
+
+    def __getitem__(self, j):
+        return self.t[tuple(int(i) for i in np.unravel_index(j, self.shape))]
+
+    def __setitem__(self, j, v):
+        self.t[tuple(int(i) for i in np.unravel_index(j, self.shape))] = v
+
+
+def _flat(t):
+    return t.view(-1) if t.is_contiguous() else _Strided(t)
+
+
 def _mutation_check(name, D, res, snap_fixed, snap_inputs, inputs0):
     for k, (v, b0) in snap_fixed.items():
         if tensor_bytes(v) != b0:
@@ -286,12 +304,12 @@ def check_entry(name, D, tab, tier):
                 elif g1 is not None:
                     gm = float(g1.detach().abs().max()) if g1.numel() else 0.0
                     d12 = float((g1.detach().double() - g2.detach().double()).abs().max()) if g1.numel() else 0.0
-                    if not d12 <= C * EPS[mode] * max(gm, S) * 8:
+                    if math.isfinite(gm) and math.isfinite(d12) and d12 > C * EPS[mode] * max(gm, S) * 8:  # NaN/inf gradients are reported as grad-nonfinite
                         res["problems"].append((f"{name}/D={D}/wrt={iname}/second-gradient-differs", f"max |g1 - g2| = {d12:.3e} between two identical evaluations (max |g| {gm:.3e})"))
     for (iname, t), g in zip(inputs, grads):
         n = t.numel()
         gad = np.zeros(n) if g is None else g.detach().double().reshape(-1).numpy().copy()
-        flat = ent.storage[iname].view(-1) if iname in ent.storage else t.data.view(-1)
+        flat = _flat(ent.storage[iname] if iname in ent.storage else t.data)
 
         def at(j, x):
             x0 = float(flat[j])
@@ -359,6 +377,10 @@ def check_entry(name, D, tab, tier):
 
         gfin = gad[np.isfinite(gad)]
         gmax = float(np.max(np.abs(gfin))) if gfin.size else 0.0
+        if gfin.size < gad.size:
+            # the statement demands finite gradients everywhere, also at coordinates the finite differences cannot judge
+            jbad = int(np.flatnonzero(~np.isfinite(gad))[0])
+            res["problems"].append((f"{name}/D={D}/wrt={iname}/grad-nonfinite", f"{gad.size - gfin.size}/{gad.size} gradient entries are NaN/inf (first: coordinate {jbad} = {gad[jbad]}) although the loss value is finite"))
         if imode == "f64":
             h, rtol = STEP["f64"]
         else:
@@ -406,9 +428,7 @@ def check_entry(name, D, tab, tier):
             a_, tj = est[j], tols[j]
             err = abs(gad[j] - a_)
             if not math.isfinite(gad[j]):
-                kinds.add("grad-nonfinite")
-                nbad += 1
-                worst = worst or (j, gad[j], a_, tj, hs[j])
+                pass  # reported once per input above
             elif err > 2 * tj:
                 nbad += 1
                 kinds.add("grad-missing" if g is None else "grad-zero" if gad[j] == 0.0 else "grad-mismatch")
@@ -769,6 +789,102 @@ def _mk_linked_inverse_entries():
 
 
 _mk_linked_inverse_entries()
+
+# ---- parameters re-assigned through the public setters must stay optimisable --------------------------------------
+def _apply_setter(t, kind, how, D, tab):
+    """Re-assign the parameters of a freshly constructed transform (params=True) with a PLAIN tensor through a public
+    setter.  Returns the transform to differentiate (the same object, or the accessor copy)."""
+    import deepali.spatial as S
+
+    def plain(shape, salt, lo=-0.3, hi=0.3):
+        return gen(shape, tab, 200 + salt, lo, hi).float()
+
+    def set_member(m):
+        cls = type(m).__name__
+        if how == "data_":
+            cur = m.data().detach()
+            return m.data_(cur + plain(tuple(cur.shape), 1, -0.1, 0.1))
+        if how == "data(arg)":
+            cur = m.data().detach()
+            return m.data(cur + plain(tuple(cur.shape), 2, -0.1, 0.1))
+        if cls == "Translation":
+            return m.offset_(plain((1, D), 3))
+        if cls in ("EulerRotation", "Shearing"):
+            return m.angles_(plain((1, m.nangles), 4))
+        if cls == "QuaternionRotation":
+            return m.quaternion_(plain((1, 4), 5) + torch.tensor([[1.5, 0.0, 0.0, 0.0]]))
+        if cls == "IsotropicScaling":
+            return m.scales_(plain((1, 1), 6, 0.8, 1.3))
+        if cls == "AnisotropicScaling":
+            return m.scales_(plain((1, D), 7, 0.8, 1.3))
+        if cls == "HomogeneousTransform":
+            return m.matrix_(torch.eye(D, D + 1).unsqueeze(0) + plain((1, D, D + 1), 8, -0.2, 0.2))
+        cur = m.data().detach()
+        return m.data_(cur + plain(tuple(cur.shape), 9, -0.1, 0.1))
+
+    if how == "grid_":
+        g = t.grid()
+        if kind in ("FFD", "SVFFD"):
+            g2 = g.resize(tuple(2 * int(n) - 1 for n in g.size()))  # control point grid subdivision
+        else:
+            g2 = g.resize(tuple(int(n) + 2 for n in g.size()))
+        with torch.no_grad():
+            for p_ in t.parameters():
+                p_.add_(plain(tuple(p_.shape), 10, -0.1, 0.1))
+        return t.grid_(g2)
+    if isinstance(t, S.SequentialTransform):
+        if how == "data(arg)":
+            return None
+        for m in t.transforms():
+            set_member(m)
+        return t
+    return set_member(t)
+
+
+SETTER_KINDS = tuple(k for k in TRANSFORM_KINDS if k not in ("SeqAffineDDF", "MultiLevelDDF", "GenericAffineSVF", "EulerRotationZXZ"))
+
+
+def _mk_setter_entries():
+    import itertools
+
+    for kind in SETTER_KINDS:
+        hows = ["setter", "data_", "data(arg)"]
+        if kind in ("DDF", "SVF", "FFD", "SVFFD"):
+            hows = ["data_", "data(arg)", "grid_"]
+        for how in hows:
+            def b(D, tab, tier, kind=kind, how=how):
+                import deepali.spatial as S
+
+                small = kind in ("DDF", "SVF")
+                g = _grid(D, tier, small=small or how == "grid_")
+                ctor = {
+                    "Translation": S.Translation, "EulerRotation": S.EulerRotation, "QuaternionRotation": S.QuaternionRotation,
+                    "IsotropicScaling": S.IsotropicScaling, "AnisotropicScaling": S.AnisotropicScaling, "Shearing": S.Shearing,
+                    "HomogeneousTransform": S.HomogeneousTransform, "RigidTransform": S.RigidTransform,
+                    "RigidQuaternionTransform": S.RigidQuaternionTransform, "SimilarityTransform": S.SimilarityTransform,
+                    "AffineTransform": S.AffineTransform, "FullAffineTransform": S.FullAffineTransform,
+                    "DDF": S.DisplacementFieldTransform,
+                    "SVF": lambda g_: S.StationaryVelocityFieldTransform(g_, steps=3),
+                    "FFD": lambda g_: S.FreeFormDeformation(g_, stride=3),
+                    "SVFFD": lambda g_: S.StationaryVelocityFreeFormDeformation(g_, stride=3, steps=3),
+                }[kind]
+                if D == 2 and kind in ("QuaternionRotation", "RigidQuaternionTransform"):
+                    return None
+                t = ctor(g)  # params=True: optimisable nn.Parameter(s)
+                t2 = _apply_setter(t, kind, how, D, tab)
+                if t2 is None:
+                    return None
+                t2 = t2.double()
+                x = _points(D, tab, M=5, salt=11, lim=0.6)
+                ins = _params(t2)
+                if not ins:
+                    raise AssertionError("transform has no parameters after the setter")
+                return Entry(f"{kind} after {how}", ins, lambda: t2(x))
+
+            ENTRIES[f"transform/{kind}/after-setter/{how}"] = (b, (2, 3))
+
+
+_mk_setter_entries()
 
 
 # NOTE: the data-object API (deepali.data ImageBatch / FlowFields) is deliberately NOT in the menu: data/*.py is not among
@@ -1353,6 +1469,58 @@ for _units in ("cube", "voxel", "world"):
     ENTRIES[f"loss/inverse_consistency_loss/units={_units}"] = (_b, (2, 3))
 
 
+
+# ---- similarity losses on images with EXACTLY constant regions (zero background, constant block, constant image) ----
+def _const_region_image(tab, salt, variant):
+    """(1, 1, 12, 11) image: zero background for rows < 6 or columns < 6 (wider than 2 * 3 - 1), texture elsewhere with
+    an exactly constant 2 x 2 block inside; variant 'constant' = the whole image is one value."""
+    shape = (12, 11)
+    if variant == "constant":
+        return torch.full((1, 1) + shape, 0.75, dtype=torch.float64)
+    v = image(shape, tab, salt, C_=1, N=1)
+    v[..., :6, :] = 0.0
+    v[..., :, :6] = 0.0
+    v[..., 8:10, 8:10] = 1.5
+    return v
+
+
+CONST_LOSSES = (
+    ("lcc_loss", {"kernel_size": 3}), ("wlcc_loss", {"kernel_size": 3}), ("ncc_loss", {}), ("mi_loss", {"num_bins": 16, "vmin": -1.0, "vmax": 4.0}),
+    ("nmi_loss", {"num_bins": 16, "vmin": -1.0, "vmax": 4.0}), ("ssd_loss", {}), ("mse_loss", {}), ("mae_loss", {}), ("huber_loss", {"delta": 0.4}),
+    ("dice_loss", {}), ("tversky_index", {}), ("tversky_loss", {}),
+)
+
+for _fn, _kw in CONST_LOSSES:
+    for _var in ("background", "target-constant"):
+        def _b(D, tab, tier, fn=_fn, kw=_kw, var=_var):
+            L_ = _Lf()
+            seg = fn.startswith(("dice", "tversky"))
+            x = _const_region_image(tab, 110, "background")
+            y = _const_region_image(tab, 111, "background" if var == "background" else "constant")
+            if seg:
+                x, y = torch.clamp(x / 2.5, 0, 1), torch.clamp(y / 2.5, 0, 1)
+            x, y = leaf(x), leaf(y)
+            return Entry(fn, OrderedDict(source=x, target=y), lambda: getattr(L_, fn)(x, y, **kw))
+
+        ENTRIES[f"loss-constant-regions/{_fn}/{_var}"] = (_b, (2,))
+
+for _fn, _kw in (("lcc_loss", {"kernel_size": 3}), ("ncc_loss", {}), ("mse_loss", {})):
+    def _b(D, tab, tier, fn=_fn, kw=_kw):
+        import deepali.spatial as S
+        from deepali.core.grid import Grid
+
+        L_ = _Lf()
+        g = Grid(shape=(12, 11))
+        t = S.Translation(g).double()
+        with torch.no_grad():
+            t.params.copy_(torch.tensor([[0.031, -0.047]], dtype=torch.float64))
+        src = _const_region_image(tab, 112, "background")
+        tgt = _const_region_image(tab, 113, "background")
+        tr = S.ImageTransformer(t, padding="zeros").double()
+        return Entry(fn, _params(t), lambda: getattr(L_, fn)(tr(src), tgt, **kw))
+
+    ENTRIES[f"loss-constant-regions/ImageTransformer(Translation)/{_fn}"] = (_b, (2,))
+
 # loss modules (same menu through the module wrappers)
 MODULE_LOSSES = (
     ("Dice", {}, "seg"), ("NCC", {}, "img"), ("LCC", {"kernel_size": 3}, "img"), ("WLCC", {"kernel_size": 3}, "img"), ("L1ImageLoss", {}, "img"),
@@ -1405,6 +1573,8 @@ def _quick_skips_3d(name):
     if name.startswith("core/logv") or name in ("loss-module/Bending", "loss-module/BSplineBending", "loss-module/Curvature"):
         return True
     if name.startswith("core/evaluate_cubic_bspline/stride=") and name.endswith("transpose=True"):
+        return True
+    if name.endswith("after-setter/grid_") or (name.endswith("after-setter/data(arg)") and "FFD" in name):
         return True
     if name.startswith("loss/") and name.endswith("/reduction=none") and not name.startswith("loss/grad_loss[p=2,q=1]"):
         return True
